@@ -66,7 +66,7 @@ META = {
         "inline-data: every byte string of length 1..inline_len over {E, I, SP, LF, CR, NUL, x, FF} that does not contain the end marker "
         "(first match of EI+white-space in data+LF+EI+LF is at len(data)+1), each run with PDFContentParser.BUFSIZ in bufsizes and 4096, "
         "and in a real document at every stream offset that puts the 4096-byte buffer boundary on each byte of 'ID <data>LF EI LF'; "
-        "inline-filtered: the sample patterns as inline images with abbreviated keys through {none, AHx, A85, RL, LZW, Fl}, exported; "
+        "inline-filtered: the sample patterns as inline images with abbreviated keys through {none, AHx, A85, RL, LZW, Fl, A85+Fl, AHx+A85, A85+AHx, AHx+Fl}, exported; "
         "inline-streams: the program cut at operator boundaries into every 2- and 3-stream /Contents array (the image wholly inside one stream), "
         "3 payloads, BUFSIZ {4096, 1, 5}, also with the image's EI as the very last bytes of a non-last stream (the next stream starts with Q); "
         "inline-nosep: every admissible string of length 1..3 over the same alphabet, not ending in CR/LF, with EI directly after the last data "
@@ -183,6 +183,12 @@ def encode_chain(chain: str, data: bytes, colour: str, w: int, abbreviated: bool
         return nm("RL"), None, codecs.rl_encode(data)
     if chain == "A85+Fl":
         return [nm("A85"), nm("Fl")], None, codecs.a85_encode(codecs.flate_encode(data))
+    if chain == "AHx+A85":  # ASCIIHex is the outermost (first decoded) filter: the encoded bytes are hex text ending in ">"
+        return [nm("AHx"), nm("A85")], None, codecs.ahx_encode(codecs.a85_encode(data))
+    if chain == "A85+AHx":  # ASCII85 outermost: the encoded bytes end in "~>"
+        return [nm("A85"), nm("AHx")], None, codecs.a85_encode(codecs.ahx_encode(data))
+    if chain == "AHx+Fl":
+        return [nm("AHx"), nm("Fl")], None, codecs.ahx_encode(codecs.flate_encode(data))
     if chain in ("Fl+PNG", "Fl+PNG10-14", "LZW+PNG12"):
         # any Predictor value 10..15 selects the PNG scheme; the function used is tagged per row (ISO 7.4.4.4)
         predictor = {"Fl+PNG": 15, "Fl+PNG10-14": 10 + variant % 5, "LZW+PNG12": 12}[chain]
@@ -1081,9 +1087,9 @@ def run_shard(shard, tier, st):
             for h in (1, 2):
                 for pat in PATTERNS:
                     samples = make_samples(colour, w, h, pat)
-                    for chain in ("none", "AHx", "A85", "RL", "LZW", "Fl", "A85+Fl"):
+                    for chain in ("none", "AHx", "A85", "RL", "LZW", "Fl", "A85+Fl", "AHx+A85", "A85+AHx", "AHx+Fl"):
                         filt, parms, enc = encode_chain(chain, samples, colour, w, abbreviated=True)
-                        ascii_tail = chain in ("AHx", "A85", "A85+Fl")
+                        ascii_tail = chain in ("AHx", "A85", "A85+Fl", "AHx+A85", "A85+AHx", "AHx+Fl")
                         if not ascii_tail and (not data_admissible(enc) or enc.endswith(b"\r")):
                             st.add("inline_filtered_payload_containing_end_marker_not_generated", 1)
                             continue
